@@ -3,7 +3,6 @@ import os
 import re
 
 META = {
-    "disabled": True,
     "level": "model_checking",
     "text": "The WalletRegistry rules (EcdsaDkgValidator.validate and its four parts, EcdsaDkg.submitResult's submitter rule, "
             "Wallets.addWallet, WalletRegistry.notifyOperatorInactivity + EcdsaInactivity.verifyClaim, OpenZeppelin ECDSA.recover) are "
